@@ -42,6 +42,7 @@ class World:
             for k in range(self.rng.randrange(1, 5)):
                 t.file(pre + b"file%d.txt" % k, "content %d\n" % k)
             t.file(pre + b"page.html", "<html><title>A page</title></html>")
+            t.file(pre + b"empty.txt", b"")                 # size 0: set but falsy
             t.dir(pre + b"subdir%d" % len(d))
             t.file(pre + b"subdir%d/x.txt" % len(d), "x\n")
             t.file(pre + b".abstract", "Header of %s" % (d.decode() or "root"))
@@ -110,18 +111,27 @@ class World:
         self.trace.append("%s in /%s" % (kind, d.decode()))
 
     def op_age(self) -> None:
-        d = self.rng.choice(self.dirs)
-        m = self.model[d]
-        cp = self.cachepath(d)
-        if m.snapshot is None or not os.path.exists(cp):
-            return
+        """Advance the clock by delta: every timestamp under the root moves back by delta
+        (the cache files' and the directories' alike), which is what the passage of time
+        looks like to code that compares time.time() with mtimes."""
         delta = self.rng.choice(AGES)
-        if abs((m.age + delta) - self.lifetime) < 10:
-            return  # stay away from the boundary: the code truncates mtime to whole seconds
-        st = os.stat(cp)
-        os.utime(cp, (st.st_atime, st.st_mtime - delta))
-        m.age += delta
-        self.trace.append("age /%s by %d (now %d)" % (d.decode(), delta, m.age))
+        for d in self.dirs:
+            m = self.model[d]
+            if m.snapshot is not None and abs((m.age + delta) - self.lifetime) < 10:
+                return  # stay away from the boundary: the code truncates mtime to whole seconds
+        for dp, dn, fn in os.walk(os.fsencode(self.root)):
+            for f in fn + dn + [b"."]:
+                p = os.path.join(dp, f)
+                try:
+                    st = os.lstat(p)
+                    os.utime(p, ns=(st.st_atime_ns - delta * 10**9, st.st_mtime_ns - delta * 10**9), follow_symlinks=False)
+                except OSError:
+                    pass
+        for d in self.dirs:
+            m = self.model[d]
+            if m.snapshot is not None and os.path.exists(self.cachepath(d)):
+                m.age += delta
+        self.trace.append("clock += %d" % delta)
 
     def op_request(self) -> bool:
         chk = self.chk
@@ -211,7 +221,7 @@ def main() -> int:
     return chk.finish(
         rule="case = one listing request inside a history of 12-40 operations (create/delete/rename/edit .cap/.names/"
              "sidecar, age the cache entry by 50/400/990/1010/3000 s, request through one of 9 views) on 1-3 directories; "
-             "the cache model decides hit/miss; hit = bytes recorded (per protocol, from a lifetime-0 twin copy) when the "
+             "the clock is advanced by moving every timestamp under the root back; the cache model decides hit/miss; hit = bytes recorded (per protocol, from a lifetime-0 twin copy) when the "
              "entry was written and unchanged cache file mtime; miss = uncached rendering of the current directory. "
              "distinct = (hit/miss, view, view that wrote the entry, age bucket, lifetime)",
         assumptions=["decisions closer than 10 s to the lifetime are not probed (the code truncates mtime to whole seconds)",
